@@ -335,7 +335,8 @@ pub fn d_case(c: &Case, rep: &mut Reporter) {
     } else {
         let cap = 2.0 + (n as f64) * sk / 8.0;
         let e = err.to_f64().unwrap_or(f64::INFINITY);
-        let kf = if e > 0.0 && (e <= 8.0 || (e <= cap && (c.amp as f64) * (n as f64) < 400.0 && sk >= 50.0)) { Some("KF-C19-c") } else { None };
+        // (same regime as KF-C02-b: low amplification, or a balance set at least 1000:1 off balance)
+        let kf = if e > 0.0 && (e <= 8.0 || (e <= cap && sk >= 50.0 && ((c.amp as f64) * (n as f64) < 400.0 || sk >= 1000.0))) { Some("KF-C19-c") } else { None };
         rep.failed(
             "d_accuracy",
             kf,
@@ -356,6 +357,20 @@ pub fn shard(cfg: &RunCfg, shard: usize, n: usize) -> Reporter {
         }
         if k % 2 == 0 {
             d_case(&c, &mut rep);
+        }
+        if k % 10 == 5 {
+            // the mint path on very lopsided balance sets (up to 1e7 : 1 on top of the case's own
+            // skew): many more Newton steps are needed there
+            let mut c2 = Case { info: c.info.clone(), amp: c.amp, decs: c.decs.clone(), res: c.res.clone() };
+            let i = rng.gen_range(0..c2.res.len());
+            let f = 10u128.pow(rng.gen_range(3..8));
+            if let Some(x) = c2.res[i].checked_mul(f) {
+                if x < 10u128.pow(33) {
+                    c2.res[i] = x;
+                    c2.info.assets[i].amount = Uint128::new(x);
+                    d_case(&c2, &mut rep);
+                }
+            }
         }
     }
     rep
